@@ -421,6 +421,44 @@ def eraseAt : List Bytes → Nat → List Bytes
   | _ :: r, 0 => r
   | x :: r, n + 1 => x :: eraseAt r n
 
+/-- `case OP_CHECKLOCKTIMEVERIFY` -/
+def execCltv (cx : Ctx) (stack : List Bytes) : R (List Bytes) :=
+  if !has cx.flags FLAG_CHECKLOCKTIMEVERIFY then .ok stack   -- not enabled; treat as a NOP2
+  else match stack with
+    | [] => .error .INVALID_STACK_OPERATION
+    | top :: _ => do
+      let n ← num cx top LOCKTIME_MAX_NUM_SIZE
+      if n < 0 then throw .NEGATIVE_LOCKTIME
+      if !checkLockTime cx n then throw .UNSATISFIED_LOCKTIME
+      pure stack
+
+/-- `case OP_CHECKSEQUENCEVERIFY` -/
+def execCsv (cx : Ctx) (stack : List Bytes) : R (List Bytes) :=
+  if !has cx.flags FLAG_CHECKSEQUENCEVERIFY then .ok stack
+  else match stack with
+    | [] => .error .INVALID_STACK_OPERATION
+    | top :: _ => do
+      let n ← num cx top LOCKTIME_MAX_NUM_SIZE
+      if n < 0 then throw .NEGATIVE_LOCKTIME
+      -- To provide for future soft-fork extensibility, if the operand has the disabled lock-time flag set,
+      -- CHECKSEQUENCEVERIFY behaves as a NOP.
+      if (n.toNat / 2 ^ 31) % 2 = 1 then pure stack
+      else
+        if !checkSequence cx n then throw .UNSATISFIED_LOCKTIME
+        pure stack
+
+/-- `case OP_PICK: case OP_ROLL` -/
+def execPickRoll (cx : Ctx) (stack : List Bytes) (roll : Bool) : R (List Bytes) :=
+  match stack with
+  | top :: below :: r0 =>
+    let r := below :: r0
+    do
+      let n ← num cx top
+      if n < 0 ∨ n ≥ r.length then throw .INVALID_STACK_OPERATION
+      let v := r.getD n.toNat []
+      if roll then pure (v :: eraseAt r n.toNat) else pure (v :: r)
+  | _ => .error .INVALID_STACK_OPERATION
+
 /-- the `switch (opcode)` cases that read and write the stacks and nothing else;
     `none` = not one of them -/
 def execStackOp (cx : Ctx) (stack alt : List Bytes) (opcode : Nat) : Option (R (List Bytes × List Bytes)) :=
@@ -434,27 +472,9 @@ def execStackOp (cx : Ctx) (stack alt : List Bytes) (opcode : Nat) : Option (R (
   -- OP_NOP
   | 0x61 => st (.ok stack)
   -- OP_CHECKLOCKTIMEVERIFY
-  | 0xb1 =>
-    if !has cx.flags FLAG_CHECKLOCKTIMEVERIFY then st (.ok stack)
-    else match stack with
-      | [] => some inv
-      | top :: _ => st do
-        let n ← num cx top LOCKTIME_MAX_NUM_SIZE
-        if n < 0 then throw .NEGATIVE_LOCKTIME
-        if !checkLockTime cx n then throw .UNSATISFIED_LOCKTIME
-        pure stack
+  | 0xb1 => st (execCltv cx stack)
   -- OP_CHECKSEQUENCEVERIFY
-  | 0xb2 =>
-    if !has cx.flags FLAG_CHECKSEQUENCEVERIFY then st (.ok stack)
-    else match stack with
-      | [] => some inv
-      | top :: _ => st do
-        let n ← num cx top LOCKTIME_MAX_NUM_SIZE
-        if n < 0 then throw .NEGATIVE_LOCKTIME
-        if (n.toNat / 2 ^ 31) % 2 = 1 then pure stack
-        else
-          if !checkSequence cx n then throw .UNSATISFIED_LOCKTIME
-          pure stack
+  | 0xb2 => st (execCsv cx stack)
   -- OP_NOP1, OP_NOP4 .. OP_NOP10
   | 0xb0 | 0xb3 | 0xb4 | 0xb5 | 0xb6 | 0xb7 | 0xb8 | 0xb9 =>
     if has cx.flags FLAG_DISCOURAGE_UPGRADABLE_NOPS then some (.error .DISCOURAGE_UPGRADABLE_NOPS)
@@ -516,16 +536,8 @@ def execStackOp (cx : Ctx) (stack alt : List Bytes) (opcode : Nat) : Option (R (
   -- OP_OVER
   | 0x78 => match stack with | x2 :: x1 :: r => st (.ok (x1 :: x2 :: x1 :: r)) | _ => some inv
   -- OP_PICK, OP_ROLL
-  | 0x79 | 0x7a =>
-    match stack with
-    | top :: below :: r0 =>
-      let r := below :: r0
-      st do
-        let n ← num cx top
-        if n < 0 ∨ n ≥ r.length then throw .INVALID_STACK_OPERATION
-        let v := r.getD n.toNat []
-        if opcode = 0x7a then pure (v :: eraseAt r n.toNat) else pure (v :: r)
-    | _ => some inv
+  | 0x79 => st (execPickRoll cx stack false)
+  | 0x7a => st (execPickRoll cx stack true)
   -- OP_ROT
   | 0x7b => match stack with | x3 :: x2 :: x1 :: r => st (.ok (x1 :: x3 :: x2 :: r)) | _ => some inv
   -- OP_SWAP
